@@ -153,7 +153,7 @@ def lock_rule(chk, rules):
                    detail="%s: %s without LockGuard(impl->lock) held" % (ent, what), key="lockheld|%s|%s" % (ent, what.split(" which")[0]))
     chk.floor(R + ":entry-points", nentries, 8)
     nguards = sum(1 for fn in fns.values() for i, x in fn.ex.items() if x["k"] == "decl" and any("LockGuard" in v["ty"] for v in x["vars"]))
-    chk.floor(R + ":guards", nguards, 5)
+    chk.floor(R + ":guards", nguards, 3)
 
 
 # --------------------------------------------------------------------------------------------- (b)
